@@ -37,6 +37,8 @@ class Interp:
         self.loopsyms = {}
         self.variants = {}       # label -> Conflict describing a scale-variant decision
         self._capture = None
+        self.capture_locals = {}     # qname -> [local names] recorded at each return of that function
+        self.captured = {}
 
     # ------------------------------------------------------------------ helpers
     @property
